@@ -214,3 +214,168 @@ Print Assumptions C07_total.
 Print Assumptions C07_robust.
 Print Assumptions C07_conn.
 Print Assumptions C07_conn_default.
+
+(* ====================================================================================================
+   Extension: the tie by TRANSLATION (Gen/C07gen.v is regenerated from net/packet/packet.go and
+   net/conn.go by tools/gotrans/c07.go on every run), the Conn-level stream theorem, and the receiver's
+   treatment of plain frames inside compressed mode.  Proofs: Proofs/C07_skel.v, Proofs/C07_conn.v. *)
+From GoMC Require Import Base.GoInt Gen.Funcs Gen.C07gen Model.C07_syntax Model.C07_conn
+  Proofs.C07_expected Proofs.C07_skel Proofs.C07_conn.
+Local Open Scope Z_scope.
+Local Open Scope bool_scope.
+
+(* the statement skeletons translated from the source have the recorded shapes: statement kinds in
+   source order (reads of VarInts with their error checks, the tests `< 0 || > MaxDataLength`,
+   `!= 0`, `< threshold`, `> MaxDataLength`, `< n3` in this order, CopyN, the zlib reader, the
+   resize-or-reuse of p.Data, padding / Next / in-place patch) with the source text of every expression *)
+Theorem C07_skeleton_shapes :
+  map shape C07gen.Pack = expected_Pack /\
+  map shape C07gen.packWithoutCompression = expected_packWithoutCompression /\
+  map shape C07gen.packWithCompression = expected_packWithCompression /\
+  map shape C07gen.UnPack = expected_UnPack /\
+  map shape C07gen.unpackWithoutCompression = expected_unpackWithoutCompression /\
+  map shape C07gen.unpackWithCompression = expected_unpackWithCompression.
+Proof.
+  exact (conj Pack_skel_ok (conj packWithoutCompression_skel_ok (conj packWithCompression_skel_ok
+        (conj UnPack_skel_ok (conj unpackWithoutCompression_skel_ok unpackWithCompression_skel_ok))))).
+Qed.
+Theorem C07_skeleton_conn :
+  C07gen.conn_ReadPacket = expected_conn_ReadPacket /\ C07gen.conn_WritePacket = expected_conn_WritePacket /\
+  C07gen.conn_SetThreshold = expected_conn_SetThreshold /\ C07gen.conn_SetCipher = expected_conn_SetCipher /\
+  C07gen.conn_literals = expected_conn_literals.
+Proof.
+  exact (conj conn_ReadPacket_skel_ok (conj conn_WritePacket_skel_ok (conj conn_SetThreshold_skel_ok
+        (conj conn_SetCipher_skel_ok conn_literals_skel_ok)))).
+Qed.
+
+(* the model's pack IS the interpretation of the translated Pack / packWithoutCompression /
+   packWithCompression (+ compressPacket) for every threshold, pooled-buffer content, int32 id and
+   payload (lengths below 2^62: Go's int does not wrap) - every expression evaluated by its translation
+   with explicit wrap semantics *)
+Theorem C07_pack_translated :
+  forall (deflate : list N -> list N) (thr : Z) (pool : list N) (id : Z) (data : list N),
+  in_sw 32 id -> Z.of_N (lenN data) < 2 ^ 62 -> Z.of_N (lenN (deflate (write32 id ++ data))) < 2 ^ 62 ->
+  interp_pack deflate thr pool (id, data) = Ret (pack deflate thr pool (id, data)).
+Proof. exact interp_pack_is_model. Qed.
+
+(* the model's unpack IS the interpretation of the translated UnPack / unpackWithoutCompression /
+   unpackWithCompression on every input stream, for every threshold, receiver state, pooled buffer and
+   behaviour of zlib: same value, same rest, same outcome class (and the same error class) *)
+Theorem C07_unpack_translated :
+  forall (inflate : list N -> option (list N)) (thr : Z) (pool : list N) (old : rstate) (s : list N),
+  run_flat (interp_unpack inflate thr pool old) s = run_flat (unpack inflate thr pool old) s.
+Proof. exact interp_unpack_is_model. Qed.
+
+(* hence the round trip holds of the interpreted translation itself *)
+Theorem C07_roundtrip_translated :
+  forall (deflate : list N -> list N) (inflate : list N -> option (list N))
+         (thr : Z) (pool pool' : list N) (old : rstate) (p : packet) (rest : list N),
+  zlib_inverse deflate inflate -> zlib_fits deflate -> in_domain p ->
+  exists frame, interp_pack deflate thr pool p = Ret frame /\
+    run_flat (interp_unpack inflate thr pool' old) (frame ++ rest) = FOk (received old p) rest.
+Proof. exact roundtrip_translated. Qed.
+
+(* the header arithmetic, translated expression by expression (wrap_s after every + - and conversion),
+   equals the model's expressions for all arguments in Go's ranges *)
+Theorem C07_header_arithmetic_translated :
+  (forall id n, in_sw 32 id -> 0 <= n < 2 ^ 62 ->
+     c07_packWithoutCompression_Length id n = vi (Z.of_N (len32 id) + n)) /\
+  (forall dl pid n, 0 <= n < 2 ^ 62 ->
+     c07_packWithCompression_PacketLength dl pid n = vi (Z.of_N (len32 dl) + Z.of_N (len32 pid) + n)) /\
+  (forall pid n, 0 <= n < 2 ^ 62 -> c07_packWithCompression_DataLength_1 pid n = vi (Z.of_N (len32 pid) + n)) /\
+  (forall b, 0 <= b < 2 ^ 63 -> c07_packWithCompression_PacketLength_1 b = vi (b - packet_MaxVarIntLen)) /\
+  (forall x, c07_packWithCompression_packetLengthLen x = Z.of_N (len32 x)) /\
+  (forall l, 1 <= l <= 5 -> c07_packWithCompression_next l = packet_MaxVarIntLen - l) /\
+  c07_packWithCompression_padding = packet_MaxVarIntLen.
+Proof.
+  exact (conj tie_plain_Length (conj tie_below_PacketLength (conj tie_zlib_DataLength
+        (conj tie_zlib_PacketLength (conj tie_packetLengthLen (conj tie_next tie_padding)))))).
+Qed.
+Theorem C07_length_checks_translated :
+  (forall L n, in_sw 32 L -> 0 <= n <= 5 -> c07_unpackWithoutCompression_lengthOfData L n = L - n) /\
+  (forall x, c07_unpackWithoutCompression_cond x = (x <? 0) || (packet_MaxDataLength <? x)) /\
+  (forall PL, in_sw 32 PL -> c07_unpackWithCompression_copy_count PL = PL) /\
+  (forall DL, c07_unpackWithCompression_cond DL = negb (DL =? 0)) /\
+  (forall DL thr, in_sw 32 DL -> c07_unpackWithCompression_cond_1 DL thr = (DL <? thr)) /\
+  (forall DL, c07_unpackWithCompression_cond_2 DL = (packet_MaxDataLength <? DL)) /\
+  (forall DL n3, in_sw 32 DL -> c07_unpackWithCompression_cond_3 DL n3 = (DL <? n3)) /\
+  (forall DL n3, 0 <= n3 <= 5 -> c07_unpackWithCompression_DataLength DL n3 = vi (DL - n3)) /\
+  (forall PL n2 n3, in_sw 32 PL -> 0 <= n2 <= 5 -> 0 <= n3 <= 5 ->
+     c07_unpackWithCompression_DataLength_1 PL n2 n3 = vi (PL - n2 - n3)).
+Proof.
+  exact (conj tie_lengthOfData (conj tie_plain_check (conj tie_copy_count (conj tie_nonzero
+        (conj tie_threshold_check (conj tie_max_check (conj tie_below_id_check
+        (conj tie_inner_DataLength tie_plain_DataLength)))))))).
+Qed.
+
+(* a PLAIN frame inside compressed mode (data length 0): accepted for EVERY payload size its frame
+   length can express - 1 + len(id) + n <= 2^31 - 1 - whatever the threshold (also n >= threshold) and
+   beyond MaxDataLength; a frame length <= 0 is an error *)
+Theorem C07_plain_in_compressed_accepted :
+  forall (inflate : list N -> option (list N)) (thr : Z) (pool : list N) (old : rstate)
+         (id : Z) (data rest : list N),
+  0 <= thr -> in_sw 32 id -> 1 + Z.of_N (len32 id) + Z.of_N (lenN data) < 2147483648 ->
+  run_flat (unpack inflate thr pool old)
+    (write32 (1 + Z.of_N (len32 id) + Z.of_N (lenN data)) ++ write32 0 ++ write32 id ++ data ++ rest)
+  = FOk (received old (id, data)) rest.
+Proof. exact plain_in_compressed_accepted. Qed.
+Theorem C07_compressed_empty_frame_rejected :
+  forall (inflate : list N -> option (list N)) (thr : Z) (pool : list N) (old : rstate) (PL : Z) (rest : list N),
+  0 <= thr -> in_sw 32 PL -> PL <= 0 ->
+  is_err (run_flat (unpack inflate thr pool old) (write32 PL ++ rest)) = true.
+Proof. exact compressed_empty_frame_rejected. Qed.
+
+(* net.Conn: any sequence of WritePacket / SetThreshold / SetCipher events on the sending Conn, the same
+   events applied on the receiving Conn at the same frame boundaries (ReadPacket into one re-used Packet):
+   the packets arrive intact and in order, the bytes after the last frame stay in the socket, and the two
+   ends stay linked (same threshold, synchronised streams).  The cipher streams are arbitrary byte-wise
+   state machines of which only `the receiver's stream inverts the sender's from synchronised states`
+   is assumed *)
+Theorem C07_conn_stream :
+  forall (cs : Type) (enc1 dec1 : cs -> N -> N * cs) (deflate : list N -> list N)
+         (inflate : list N -> option (list N)) (sync : cs -> cs -> Prop),
+  zlib_inverse deflate inflate -> zlib_fits deflate -> stream_inverse cs enc1 dec1 sync ->
+  forall (evs : list (ev cs)) (ca cb : conn2 cs) (old : rstate) (rest : list N),
+  linked cs sync ca cb -> evs_ok cs sync evs ->
+  exists cb',
+    recv_all cs dec1 inflate cb evs old (fst (send_all cs enc1 deflate ca evs) ++ rest)
+    = FOk (thread old (packets_of cs evs), cb') rest /\
+    linked cs sync (snd (send_all cs enc1 deflate ca evs)) cb'.
+Proof. exact conn_stream. Qed.
+
+(* ---------- non-vacuity ---------- *)
+(* a cipher with ciphertext feedback (the CFB shape: the state is the last ciphertext byte) satisfies
+   stream_inverse with sync = equality of states *)
+Example C07_ex_stream_inverse : stream_inverse N toy_enc toy_dec eq.
+Proof.
+  intros a b x ->. unfold toy_enc, toy_dec. cbn [fst snd]. split; [|reflexivity].
+  rewrite N.lxor_assoc, N.lxor_nilpotent, N.lxor_0_r. reflexivity.
+Qed.
+(* a concrete run: two fresh Conns; a packet in the clear, SetThreshold 2, a packet that gets a
+   compressed frame, SetCipher, one more packet below the threshold; trailing byte 77 stays *)
+Example C07_ex_conn_run :
+  let evs := [ EPacket N [1%N] [] (5, [9; 9; 9]%N); EThreshold N 2; EPacket N [] [2%N] (300, [1; 2; 3]%N);
+               ECipher N 7%N 8%N 9%N 7%N; EPacket N [] [] (6, [4%N]) ] in
+  let '(wire, ca) := send_all N toy_enc (fun x => x) (wrap_conn2 N) evs in
+  wire = [4; 5; 9; 9; 9;  6; 5; 172; 2; 1; 2; 3;  4; 4; 2; 6]%N /\
+  match recv_all N toy_dec (fun z => Some z) (wrap_conn2 N) evs {| r_id := 0; r_data := []; r_cap := 0%N |} (wire ++ [77%N]) with
+  | FOk (rs, cb) rest => map pkt_of rs = packets_of N evs /\ rest = [77%N] /\ k_thr N cb = 2 /\ k_dec N cb = k_enc N ca
+  | _ => False
+  end.
+Proof. vm_compute. repeat split. Qed.
+(* the plain-in-compressed frame: threshold 1, payload of 3 bytes (>= threshold), data length 0 *)
+Example C07_ex_plain_in_compressed :
+  run_flat (unpack (fun z => Some z) 1 [] {| r_id := 0; r_data := []; r_cap := 0%N |}) [5; 0; 7; 1; 2; 3; 77]%N
+  = FOk {| r_id := 7; r_data := [1; 2; 3]%N; r_cap := 3%N |} [77%N].
+Proof. vm_compute. reflexivity. Qed.
+
+Print Assumptions C07_skeleton_shapes.
+Print Assumptions C07_skeleton_conn.
+Print Assumptions C07_pack_translated.
+Print Assumptions C07_unpack_translated.
+Print Assumptions C07_roundtrip_translated.
+Print Assumptions C07_header_arithmetic_translated.
+Print Assumptions C07_length_checks_translated.
+Print Assumptions C07_plain_in_compressed_accepted.
+Print Assumptions C07_compressed_empty_frame_rejected.
+Print Assumptions C07_conn_stream.
